@@ -1,9 +1,9 @@
-\* C14 quick: exhaustive, repaired loop, every chain of 4 headers over 5 instants.
+\* C14 quick: exhaustive, repaired loop, every chain of 4 headers over 4 instants, <= 1 header-store read failure.
 \* ("convert" starts as an archival node that may or may not be converted, so it covers "archival".)
 SPECIFICATION Spec
 CONSTANTS
   N = 4
-  T = 4
+  T = 3
   Ws = {1, 2}
   Bs = {1, 2}
   Ms = {2}
@@ -11,6 +11,8 @@ CONSTANTS
   Modes = {"pruned", "convert"}
   MaxRestarts = 1
   MaxDeletes = 2
+  MaxReadFaults = 1
+  MaxAbortFaults = 1
   IntraHead = FALSE
   LazyChain = FALSE
   SimBias = FALSE
@@ -20,5 +22,5 @@ CONSTANTS
   Depth = 0
 VIEW View
 INVARIANTS TypeOK Sane NeverInsideWindow ArchivalKeepsODS AllOldPrunedAtCycleEnd
-PROPERTIES CheckpointMonotone PersistedMonotone
+PROPERTIES CheckpointMonotone PersistedMonotone FailedKept
 CHECK_DEADLOCK FALSE
